@@ -157,6 +157,45 @@ func c19b(c *Ctx) {
 			c.Bad(f.Name+" result", r.Pos(), "the file returned is not the one that was checked")
 		}
 	}
+	// EXACT-FILE: the file handed to the file server is the one the request path names - the wrapped
+	// file system is opened exactly once, with the unmodified name, and the variable holding the file
+	// has no other definition (no fallback to a sibling object, a full tile for a missing partial, ...)
+	inst := f.Name + " exact file"
+	allOpens := f.Find(func(n ast.Node) bool {
+		call, ok := n.(*ast.CallExpr)
+		if !ok {
+			return false
+		}
+		sel, ok := ast.Unparen(call.Fun).(*ast.SelectorExpr)
+		if !ok {
+			return false
+		}
+		switch sel.Sel.Name {
+		case "Open", "OpenFile", "OpenRoot", "ReadFile", "Sub":
+			return true
+		}
+		return false
+	})
+	switch {
+	case len(allOpens) != 1 || len(opens) != 1:
+		pos := f.Pos(f.Decl)
+		if len(allOpens) > 1 {
+			pos = allOpens[1].Pos()
+		}
+		c.Bad(inst, pos, fmt.Sprintf("the file system is opened %d time(s), %d of them with the requested name itself: a response can come from a file other than the one the path names", len(allOpens), len(opens)))
+	case len(f.Defs(fileObj)) != 1:
+		c.Bad(inst, opens[0].Pos(), "the file variable is redefined after the open: the file served may not be the one the path names")
+	default:
+		// the wrapped file system is the struct's own field
+		sel := ast.Unparen(opens[0].X.(*ast.CallExpr).Fun).(*ast.SelectorExpr)
+		if r, pth, ok := fieldPath(info, sel.X); !ok || r != f.recvObj() || len(pth) != 1 {
+			c.Bad(inst, opens[0].Pos(), "Open does not delegate to the wrapped file system of the receiver")
+		} else if np := f.paramObj("name"); np == nil || len(f.Defs(np)) != 0 {
+			c.Bad(inst, opens[0].Pos(), "the requested name is rewritten before the open")
+		} else {
+			c.OK(inst, "one Open(name) on the wrapped file system, result returned unchanged", []string{opens[0].Pos()})
+		}
+	}
 }
 
 // routeHeaders extracts, for each logMux.HandleFunc(pattern, literal), the
